@@ -65,9 +65,9 @@ def ensure_built(log=None):
         args = [PY, 'setup.py', 'build_ext', '--inplace', '-j16']
         if old:
             # content changed since the last build we know of: do not rely on timestamps
-            if any(c.endswith('.pxd') or c == 'setup.py' for c in changed):
-                # a changed .pxd affects its cimporters; cheapest sound answer is a forced rebuild
+            if any(c == 'setup.py' for c in changed):
                 args.append('--force')
+            # a changed .pxd is touched below; cythonize tracks cimport dependencies and recompiles its cimporters
             for c in changed:
                 p = os.path.join(REPO, c)
                 if os.path.exists(p):
